@@ -276,17 +276,15 @@ func (g *c09gen) message(v *pgVal, msgName string) *jnode {
 	return o
 }
 
-// ---- cleaning: remove what triggers the recorded defects (so that a good share of the documents exercises the
-// correct paths end to end); returns nil when the value itself has to go
+// ---- cleaning: remove what the converter does not support at all (map key kinds other than int32/int64/uint32/uint64/
+// bool/string) and the float values outside the property (-0), so that a good share of the documents is inside the
+// property's domain end to end; returns nil when the value itself has to go
 func c09Clean(r *rng, f *pgField, v *pgVal, kind int) *pgVal {
 	switch v.Tag {
 	case 1:
 		out := &pgVal{Tag: 1, Kind: pgKMessage}
 		for _, fv := range v.Fields {
 			ff := fv.F
-			if ff.Kind == pgKEnum {
-				continue
-			}
 			var nv *pgVal
 			switch ff.Label {
 			case pgSingular:
@@ -311,15 +309,6 @@ func c09Clean(r *rng, f *pgField, v *pgVal, kind int) *pgVal {
 				seen := map[string]bool{}
 				for _, kv := range fv.V.Entries {
 					k := kv.K
-					if k.Tag == 2 {
-						lim := new(big.Int).Lsh(big.NewInt(1), 63)
-						if ff.KeyKind == 13 {
-							lim = new(big.Int).Lsh(big.NewInt(1), 31)
-						}
-						if k.I.Cmp(lim) >= 0 {
-							k = pgNum(k.Kind, new(big.Int).Rsh(k.I, 1))
-						}
-					}
 					id := string(k.B)
 					if k.Tag == 2 {
 						id = k.I.String()
@@ -343,15 +332,8 @@ func c09Clean(r *rng, f *pgField, v *pgVal, kind int) *pgVal {
 				out.Fields = append(out.Fields, pgFV{F: ff, V: nv})
 			}
 		}
-		if len(out.Fields) == 0 && f != nil {
-			return nil // an empty nested message triggers finding 902
-		}
 		return out
 	case 2:
-		if (kind == 4 || kind == 6) && v.I.Cmp(new(big.Int).Lsh(big.NewInt(1), 63)) >= 0 {
-			nv := pgNum(kind, new(big.Int).Rsh(v.I, 1))
-			return nv
-		}
 		return c09FixFloat(kind, v, true)
 	}
 	return v
@@ -785,8 +767,11 @@ func c09SweepSchema() *pgSchema {
 		fld(11, "i_32", pgSingular, 5, 0, ""),
 		fld(12, "f_flt", pgSingular, pgKFloat, 0, ""),
 		fld(13, "km_msg", pgMap, pgKMessage, 3, "N"),
+		{Num: 14, Name: "e_enum", Label: pgSingular, Kind: pgKEnum, EnumName: "E0"},
+		{Num: 15, Name: "le_enum", Label: pgRepeated, Kind: pgKEnum, EnumName: "E0"},
 	}}
-	return &pgSchema{Pkg: "pg.sweep", Msgs: []*pgMsg{n, k}, Root: "N", Opts: pgOpts{MaxDepth: 1000}.withDefaults()}
+	return &pgSchema{Pkg: "pg.sweep", Msgs: []*pgMsg{n, k}, Enums: []*pgEnum{{Name: "E0", Values: []int32{0, 1, 2, -1}}}, Root: "N",
+		Opts: pgOpts{MaxDepth: 1000}.withDefaults()}
 }
 
 func c09Field(c *pgCompiled, msg, name string) *pgField {
@@ -1004,17 +989,47 @@ func genC09(r *rng, n int) {
 		}
 		emitVal(c09Msg(pgFV{F: fz, V: pgNum(18, big.NewInt(math.MinInt64))}), 5, false)
 		emitVal(c09Msg(pgFV{F: fz, V: pgNum(18, big.NewInt(-3))}), 5, false)
-		// hand-written documents: out-of-range / odd spellings, map keys that do not parse, float32 double rounding
-		for _, d := range []string{
-			`{"k_keys":{"k_u32":{"abc":1}}}`, `{"k_keys":{"k_i32":{"2147483648":1}}}`, `{"k_keys":{"k_i32":{"+5":1,"007":2}}}`,
-			`{"k_keys":{"k_bool":{"TRUE":1}}}`, `{"k_keys":{"k_bool":{"yes":1}}}`, `{"k_keys":{"k_i64":{"":1}}}`,
-			`{"k_keys":{"i_32":4294967297}}`, `{"k_keys":{"u_32":-1}}`, `{"k_keys":{"i_32":1.5}}`, `{"k_keys":{"i_32":2.229e+2}}`, `{"k_keys":{"u_32":1e2}}`,
-			`{"k_keys":{"f_flt":1.00000005960464477539062500001}}`, `{"k_keys":{"f_flt":16777217}}`, `{"k_keys":{"f_flt":1e39}}`, `{"k_keys":{"f_flt":-0}}`, `{"ld_dbl":[-0.0,1e400,-0,5e-324,2.5e-324]}`,
-			`{"a_int":1} trailing`, `{"a_int":1}{"a_int":2}`, `[1,2]`, `1`, `"x"`, `null`, `{}`, ` { } `, `{"a_int":1,"a_int":2}`, `{"a_int":1,"aInt":2}`,
-			`{"n_next":{"a_int":1},"n_next":{"s_pad":"x"}}`, `{"l_ints":[1],"l_ints":[2]}`, `{"l_ints":[[1]]}`, `{"ln_list":[[{"a_int":1}]]}`, `{"b_bytes":"AQI"}`, `{"b_bytes":"AQI="}`, `{"b_bytes":"!!!!"}`,
-			`{"s_pad":"😀é"}`, `{"m_map":{"k":{"a_int":1},"k":{"a_int":2}}}`,
-		} {
-			c09Run(sw, swf, []byte(d), false, nil, 9)
+		// hand-written documents, one class per documented quirk / error class (Properties_C09.v C09_quirk_*, C09_fixed_*):
+		// the checker demands the specified outcome where the property speaks and the model's outcome everywhere else
+		hand := map[int][]string{
+			90: { // integers outside the kind's range or not plain integers: wrapped / truncated / rejected
+				`{"k_keys":{"i_32":4294967297}}`, `{"k_keys":{"u_32":-1}}`, `{"k_keys":{"i_32":1.5}}`, `{"k_keys":{"i_32":2.229e+2}}`, `{"k_keys":{"u_32":1e2}}`,
+				`{"k_keys":{"u_64":1e2}}`, `{"k_keys":{"u_64":18446744073709551616}}`, `{"k_keys":{"u_64":-1}}`, `{"k_keys":{"i_32":-2147483649}}`, `{"z_sint":9223372036854775808}`,
+				`{"l_ints":[1,2147483648,3]}`, `{"k_keys":{"f_64":1.0}}`},
+			91: { // null as list element / map value / everywhere
+				`{"l_ints":[1,null,2]}`, `{"l_ints":[null]}`, `{"ls_strs":["a",null]}`, `{"ln_list":[{"a_int":1},null]}`, `{"ln_list":[null]}`,
+				`{"k_keys":{"k_i32":{"1":null}}}`, `{"m_map":{"k":null}}`, `{"m_map":{"k":null,"j":{"a_int":1}}}`, `{"a_int":null,"n_next":null,"l_ints":null,"m_map":null}`},
+			92: { // duplicate members: every occurrence is emitted (last wins / merge / concatenate in the decoder)
+				`{"a_int":1,"a_int":2}`, `{"a_int":1,"aInt":2}`, `{"n_next":{"a_int":1},"n_next":{"s_pad":"x"}}`, `{"l_ints":[1],"l_ints":[2]}`,
+				`{"m_map":{"k":{"a_int":1},"k":{"a_int":2}}}`, `{"ls_strs":["a"],"lsStrs":["b"]}`, `{"k_keys":{"k_i32":{"1":1,"1":2}}}`},
+			93: { // enum by number / name, base64 variants
+				`{"k_keys":{"e_enum":1}}`, `{"k_keys":{"e_enum":-1}}`, `{"k_keys":{"e_enum":7}}`, `{"k_keys":{"e_enum":"E0_V1"}}`, `{"k_keys":{"le_enum":[0,1,2]}}`,
+				`{"k_keys":{"e_enum":2147483648}}`, `{"k_keys":{"e_enum":true}}`,
+				`{"b_bytes":"AQI"}`, `{"b_bytes":"AQI="}`, `{"b_bytes":"!!!!"}`, `{"b_bytes":"-_-_"}`, `{"b_bytes":"+/+/"}`, `{"b_bytes":"AQ\nID"}`, `{"b_bytes":"AQID "}`, `{"b_bytes":""}`},
+			94: { // map key spellings
+				`{"k_keys":{"k_u32":{"abc":1}}}`, `{"k_keys":{"k_i32":{"2147483648":1}}}`, `{"k_keys":{"k_i32":{"+5":1,"007":2}}}`, `{"k_keys":{"k_u32":{"+5":1}}}`,
+				`{"k_keys":{"k_bool":{"TRUE":1}}}`, `{"k_keys":{"k_bool":{"yes":1}}}`, `{"k_keys":{"k_bool":{"1":1,"f":2}}}`, `{"k_keys":{"k_i64":{"":1}}}`,
+				`{"k_keys":{"k_u64":{"18446744073709551616":1}}}`, `{"k_keys":{"k_u32":{"-1":1}}}`, `{"k_keys":{"k_i32":{"1.0":1}}}`, `{"k_keys":{"k_s32":{"1":1}}}`},
+			95: { // string-spelled numbers and other JSON kinds contradicting the field, at member / element / map value level
+				`{"a_int":"1"}`, `{"k_keys":{"f_flt":"1.5"}}`, `{"k_keys":{"u_64":"5"}}`, `{"l_ints":["1"]}`, `{"k_keys":{"k_i32":{"1":"2"}}}`, `{"s_pad":5}`, `{"ls_strs":[1]}`,
+				`{"l_ints":[[1]]}`, `{"ln_list":[[{"a_int":1}]]}`, `{"l_ints":[{}]}`, `{"ln_list":[1]}`, `{"m_map":{"k":[1]}}`, `{"m_map":{"k":1}}`, `{"n_next":[]}`, `{"a_int":{}}`, `{"a_int":[]}`,
+				`{"l_ints":{}}`, `{"m_map":[]}`, `{"n_next":{"n_next":{"a_int":true}}}`, `[1,2]`, `1`, `"x"`, `null`, `true`, `[]`},
+			96: { // float spellings: double rounding, overflow, sign of zero, subnormals
+				`{"k_keys":{"f_flt":1.00000005960464477539062500001}}`, `{"k_keys":{"f_flt":16777217}}`, `{"k_keys":{"f_flt":1e39}}`, `{"k_keys":{"f_flt":-0}}`,
+				`{"ld_dbl":[-0.0,1e400,-0,5e-324,2.5e-324]}`, `{"ld_dbl":[9223372036854775807,9223372036854775808,1E2,1.0e+2]}`},
+			97: { // not exactly one JSON document
+				`{"a_int":1} trailing`, `{"a_int":1}{"a_int":2}`, ``, `{"a_int":1`, `{"a_int":}`},
+			98: { // small valid documents: empty containers everywhere
+				`{}`, ` { } `, `{"s_pad":"😀é"}`, `{"n_next":{},"a_int":1}`, `{"l_ints":[],"a_int":1}`, `{"ls_strs":[],"m_map":{},"ln_list":[],"a_int":1}`,
+				`{"ln_list":[{},{}],"m_map":{"a":{},"b":{}}}`, `{"k_keys":{"le_enum":[],"k_i32":{}},"a_int":1}`},
+		}
+		for cl := 90; cl <= 98; cl++ {
+			for _, d := range hand[cl] {
+				c09Run(sw, swf, []byte(d), false, nil, cl)
+				if cl == 95 || cl == 98 {
+					c09Run(sw, swf, []byte(d), true, nil, cl)
+				}
+			}
 		}
 	}
 	// (d) null / empty / unknown / damaged members on the sweep schema (small documents, all positions)
@@ -1077,10 +1092,7 @@ func genC09(r *rng, n int) {
 			switch x := r.intn(10); {
 			case x < 4: // plain / re-spelled
 			case x < 6:
-				d := c09deco{unknowns: 25, shuffle: true, defaults: 15}
-				if !clean {
-					d.nulls, d.empties = 15, 15
-				}
+				d := c09deco{unknowns: 25, shuffle: true, defaults: 15, nulls: 15, empties: 15}
 				if gg.decorate(tree, s.Root, d) > 0 && dis {
 					exp = nil
 				}
